@@ -93,8 +93,10 @@ class Polynomial(Expression):
     def traits(self):
         return PolynomialTraits()
 
-    def __nonzero__(self):
+    def __bool__(self):
         return len(self.Data) != 0
+
+    __nonzero__ = __bool__
 
     def __eq__(self, other):
         return (isinstance(other, Polynomial)
